@@ -25,7 +25,7 @@ import np2common as n2
 from vkit import metagen, tlc, tracecheck
 
 NSH = 2
-NS = 1500
+NS = 1507          # deliberately not a multiple of 12, of the window or of the stride
 W = 1200           # 2 windows
 OPT_KEYS = ("ow", "chk", "cmp", "del")
 STEM = "_spikeglx_ephysData_g0_t0.imec0"
